@@ -231,7 +231,7 @@ def run_flag_reach(run, P):
                                   'the condition tests the flag `%s`, but no assignment other than its initialiser (%d) can reach this point: the step that sets it comes later in the '
                                   'function, so the test is vacuous and the RFC 8613 step it steers (fresh Partial IV / nonce for an Observe notification, ...) is never taken here'
                                   % (init[v][1], init[v][0]), [])
-    run.require(nf >= 4 or run.fixture_mode, 'R-OSC-SPLIT(flags): fewer than 4 flag tests found in %s' % (FLAG_FUNCS,))
+    run.require_count(nf >= 4 or run.fixture_mode, 'R-OSC-SPLIT(flags): fewer than 4 flag tests found in %s' % (FLAG_FUNCS,))
 
 
 # ---------------------------------------------------------------------------------------------------------------
@@ -332,7 +332,7 @@ def run_match_acc(run, P, units=('oscore_context.c', 'coap_oscore.c', 'oscore.c'
             run.violation('R-OSC-SPLIT', name, b2, 'comparison-result-overwritten',
                           'the truth value assigned at %s is overwritten here before anything read it: that comparison no longer takes part in the decision (a look-up then accepts an '
                           'entry that differs in what was compared there)' % a.rsplit('/', 1)[-1], path)
-    run.require(nf >= 1 or run.fixture_mode, 'R-OSC-SPLIT(match accumulators): no truth-valued local found in %s' % (units,))
+    run.require_count(nf >= 1 or run.fixture_mode, 'R-OSC-SPLIT(match accumulators): no truth-valued local found in %s' % (units,))
 
 
 def run_outer_discard(run, P):
@@ -388,4 +388,4 @@ def run_outer_discard(run, P):
                           ', '.join('%d (%s)' % (k, CLASS_E_ONLY[k]) for k in possible), ctx.path())
         return None
     solve(g, Env(), on_event, None, keys, R, key_fn=lambda e: (e.ts.get('walks'), tuple(e.intf(a) for a in sorted(num_aps))))
-    run.require(n[0] >= 1 or run.fixture_mode, 'R-OSC-SPLIT(outer discard): no copy of an outer option by iterator number found in %s()' % DEC)
+    run.require_count(n[0] >= 1 or run.fixture_mode, 'R-OSC-SPLIT(outer discard): no copy of an outer option by iterator number found in %s()' % DEC)
